@@ -21,7 +21,8 @@ this run: the directory sort suffix and every path separator are `/`; sub-trees 
 `S_IFMT` is the mask 0170000 (Python and Rust); iter_tree_contents and both `_merge_entries` walk in NAME
 order while `Tree._serialize` uses tree (`key_entry`) order; the `_merge_entries` loop has the three
 canonical branches; tree_changes prunes iff `not want_unchanged` and splits type changes unless
-`change_type_same`; empty sub-trees are deleted by commit_tree_changes (checked by the translator). -/
+`change_type_same`; commit_tree_changes stores direct entries after the nested changes; empty sub-trees are deleted
+by commit_tree_changes (checked by the translator). -/
 theorem gen_tie :
     Gen.TreeOps.dirSuffix = 0x2f ∧ Gen.TreeOps.pathSep = 0x2f ∧
     Gen.TreeOps.sIFDIR = 0o040000 ∧ Gen.TreeOps.sIFMT = 0o170000 ∧ Gen.TreeOps.sIFGITLINK = 0o160000 ∧
@@ -30,7 +31,7 @@ theorem gen_tie :
     Gen.TreeOps.flattenNameOrder = true ∧ Gen.TreeOps.mergeNameOrder = true ∧
     Gen.TreeOps.rsMergeNameOrder = true ∧ Gen.TreeOps.serializeNameOrder = false ∧
     Gen.TreeOps.mergeBranchesCanonical = true ∧ Gen.TreeOps.pruneIsNotWantUnchanged = true ∧
-    Gen.TreeOps.typeChangeSplitsUnlessSame = true := by decide
+    Gen.TreeOps.typeChangeSplitsUnlessSame = true ∧ Gen.TreeOps.ctcDirectEntriesDeferred = true := by decide
 
 /-! ## canonical order -/
 
